@@ -205,8 +205,9 @@ def install():
         if d.get('np') is _np:
             _SAVED.append((m, 'np', _np))
             m.np = npx
-        if m.__name__ in ('qstrader.portcon.order_sizer.dollar_weighted', 'qstrader.portcon.order_sizer.long_short',
-                          'qstrader.broker.portfolio.position'):
+        if m.__name__.startswith(('qstrader.portcon', 'qstrader.broker', 'qstrader.execution', 'qstrader.signals', 'qstrader.alpha_model',
+                                  'qstrader.statistics.performance', 'qstrader.trading')):
+            # int(x) of a proxy = truncation toward zero; the genuine builtin for everything else
             _SAVED.append((m, 'int', d.get('int', _MISSING)))
             m.int = _int
         if d.get('pd') is _pd and m.__name__.startswith(('qstrader.asset', 'qstrader.alpha_model', 'qstrader.exchange', 'qstrader.broker',
